@@ -15,6 +15,7 @@ import (
 	"fmt"
 	"io"
 	"math/rand"
+	"net"
 	"net/http"
 	"net/http/httptest"
 	"os"
@@ -437,9 +438,12 @@ func jbCurlScripted(r *jbRun, ctx context.Context, maxCode int) {
 
 // ---------------------------------------------------------------------------------------------- CurlJob, loopback server
 
-func jbServer(hang chan struct{}) *httptest.Server {
+func jbServer(hang chan struct{}) *httptest.Server { return jbServerCounting(hang, nil) }
+
+// jbServerCounting also counts the TCP connections the server accepts (newConns may be nil).
+func jbServerCounting(hang chan struct{}, newConns *int64) *httptest.Server {
 	var seq int64
-	return httptest.NewServer(http.HandlerFunc(func(w http.ResponseWriter, req *http.Request) {
+	srv := httptest.NewUnstartedServer(http.HandlerFunc(func(w http.ResponseWriter, req *http.Request) {
 		p := strings.Split(strings.Trim(req.URL.Path, "/"), "/")
 		switch p[0] {
 		case "code":
@@ -466,6 +470,15 @@ func jbServer(hang chan struct{}) *httptest.Server {
 			fmt.Fprint(w, "hello")
 		}
 	}))
+	if newConns != nil {
+		srv.Config.ConnState = func(_ net.Conn, st http.ConnState) {
+			if st == http.StateNew {
+				atomic.AddInt64(newConns, 1)
+			}
+		}
+	}
+	srv.Start()
+	return srv
 }
 
 func jbCurlLoopback(r *jbRun, ctx context.Context) {
@@ -931,6 +944,18 @@ func jbCancel(r *jbRun, skipShell bool) {
 	}
 	cancel()
 	r.samples = append(r.samples, map[string]any{"cancel_shell_took_ms": d.Milliseconds()})
+
+	// observation only (outside the property, which speaks of a simple command): a compound command leaves a grandchild
+	// that keeps the output pipes open, so Execute returns only when that grandchild exits
+	ctx, cancel = context.WithCancel(context.Background())
+	sj = job.NewShellJob("sleep 1; :")
+	time.AfterFunc(100*time.Millisecond, cancel)
+	_, d, ok = jbTimed(func() error { return sj.Execute(ctx) })
+	cancel()
+	if ok && d > 800*time.Millisecond {
+		r.notes = append(r.notes, "cancelling the context of the compound command `sleep 1; :` kills only the shell: Execute returned after "+
+			"the orphaned `sleep` exited (no cmd.WaitDelay / process group kill); simple commands are exec'ed by the shell and abort promptly")
+	}
 }
 
 // ---------------------------------------------------------------------------------------------- leaks
@@ -1002,7 +1027,8 @@ func jbLeak(r *jbRun, ctx context.Context, n int, skipShell bool) {
 	check("FunctionJob", func() { _ = fj.Execute(ctx) }, nil)
 
 	hang := make(chan struct{})
-	srv := jbServer(hang)
+	var newConns int64
+	srv := jbServerCounting(hang, &newConns)
 	tr := &http.Transport{}
 	cl := &jbCountingClient{inner: &http.Client{Transport: tr, Timeout: 10 * time.Second}}
 	cj := job.NewCurlJobWithOptions(jbRequest(srv.URL+"/code/200"), job.CurlJobOptions{HTTPClient: cl})
@@ -1014,6 +1040,11 @@ func jbLeak(r *jbRun, ctx context.Context, n int, skipShell bool) {
 	}, &cl.open)
 	if failed > 0 {
 		r.notes = append(r.notes, fmt.Sprintf("%d loopback requests of the leak check failed", failed))
+	}
+	if reqs, conns := atomic.LoadInt64(&cl.total), atomic.LoadInt64(&newConns); conns*2 > reqs {
+		r.notes = append(r.notes, "one CurlJob executed repeatedly against a keep-alive server opens about one TCP connection per request "+
+			"(Execute closes the previous response body without reading it, so the transport cannot reuse the connection); connections are closed, not leaked")
+		r.samples = append(r.samples, map[string]any{"curl_requests": reqs, "tcp_connections_opened": conns})
 	}
 	cj2 := job.NewCurlJobWithOptions(jbRequest(srv.URL+"/cycle"), job.CurlJobOptions{HTTPClient: cl})
 	before := atomic.LoadInt64(&cl.open)
